@@ -613,8 +613,8 @@ def source_as_modelled : Prop :=
   pyPlaceholders.map (·.1) = phTable.map (·.1) ∧
   pyDateFields = [kYear, kMonth, kDate, kDay] ∧
   pyTimeFields = [kHour, kMinute, kSecond] ∧
-  pyNatSimplification = ["==hour:minute:second".toList, "==hour:minute".toList, "=0h".toList, "=hour:minute".toList,
-                         "=hour".toList, "=12h".toList, "=hour".toList] ∧
+  pyNatSimplification = ["==hour:minute:second".toList, "=0h".toList, "=12h".toList, "=hour".toList,
+                         "=hour:minute".toList, "==hour:minute".toList, "=hour".toList] ∧
   pyStatements =
     ["dateS = interpret('-'.join((field for field in ('year', 'month', 'date', 'day') if dOpts[field])))".toList,
      "dateS = relativeDate[sign].replace('[x]', str(abs(diffDays)))".toList,
